@@ -24,7 +24,7 @@ def shards(tier):
         {"name": "prog.torch", "mode": "jit", "backend": "torch", "fn": "progs", "n": 20 if q else 600},
     ]
     for k in range(4 if q else 10):
-        out.append({"name": "prog.np.jit.%d" % k, "mode": "jit", "backend": "np", "fn": "progs", "n": 50 if q else 2500})
+        out.append({"name": "prog.np.jit.%d" % k, "mode": "jit", "backend": "np", "fn": "progs", "n": 50 if q else 1200})
     out.append({"name": "forms.np.jit", "mode": "jit", "backend": "np", "fn": "progs", "n": 20 if q else 1000, "forms": 1})
     out.append({"name": "big.np.jit", "mode": "jit", "backend": "np", "fn": "big", "n": 2 if q else 40})
     out.append({"name": "big.torch", "mode": "jit", "backend": "torch", "fn": "big", "n": 1 if q else 8})
